@@ -2,7 +2,7 @@
 From Coq Require Import List NArith ZArith Bool Sorted.
 Import ListNotations.
 Require Import FlexV.Regex FlexV.SpecAuto FlexV.Pat FlexV.Tables FlexV.Scan FlexV.C01Proofs FlexV.RScan
-               FlexV.C07Proofs FlexV.GenOptions.
+               FlexV.C07Proofs FlexV.GenOptions FlexV.Tokenize FlexV.RejectTok FlexV.C07VarProofs.
 
 (** For a table set that passes the lock-step check on full accepting lists,
     the alternatives the state-stack loop offers are, for EVERY input, exactly
@@ -34,3 +34,38 @@ Proof.
     destruct (o_meta o), (o_inter o); reflexivity.
 Qed.
 Print Assumptions C07_reject_refused_with_full_tables.
+
+(** REJECT in rules with trailing context (variable context included): an
+    event stream accepted by the validator is, token after token, a walk
+    through the specification's alternatives in their order, every action
+    handed a documented head of its match, all but the last rejecting. *)
+Theorem C07_validated_events_are_documented : forall p sc pol fuel c bol w evs,
+  rej_validate fuel p sc pol c bol w evs = true -> DocRejTok p sc pol c bol w evs.
+Proof. exact rej_validate_sound. Qed.
+Print Assumptions C07_validated_events_are_documented.
+
+(** Such a walk runs the actions of a prefix of the alternatives: none is skipped. *)
+Theorem C07_walk_skips_no_alternative : forall p pol w c al es c' n,
+  RejWalk p pol w c al es c' n ->
+  exists al1 al2, al = al1 ++ al2 /\ map fst al1 = map fst es /\ (n = O /\ al2 = [] \/ es <> []).
+Proof. exact RejWalk_prefix. Qed.
+Print Assumptions C07_walk_skips_no_alternative.
+
+(** Tables that pass the lock-step check against the specification automaton
+    with head markers: the text the find_rule loop hands to the action of a
+    rule with variable trailing context (the head marker found below the
+    flagged entry) is, for EVERY input, a prefix of the rule's match that
+    the rule's head pattern matches. *)
+Theorem C07_variable_head_from_tables : forall p vars sc bol t al m i0,
+  (N.of_nat (length (p_rules p)) + 1 < HEAD_MASK)%N ->
+  check_rview t vars al m (spec_start_r p vars sc bol) i0 = true ->
+  forall w, Forall (fun b => In b al) w ->
+  forall pre r k rest j,
+    ralts_raw t i0 w = pre ++ ((r + TRAIL_MASK)%N, k) :: rest -> (r < TRAIL_MASK)%N ->
+    find_head (r + HEAD_MASK)%N rest = Some j ->
+    (j <= k <= length w)%nat /\
+    exists rl, rule_of p r = Some rl /\
+               Matches (denote (p_csize p) (r_fl rl) (r_head rl)) (firstn j w) /\
+               rule_matches (spec_start_r p vars sc bol) r (firstn k w).
+Proof. exact variable_head_is_a_head_match. Qed.
+Print Assumptions C07_variable_head_from_tables.
